@@ -764,10 +764,12 @@ impl Graph {
             };
             self.parents_invalid = true;
             self.positions_invalid = true;
-            for (parent_id, len) in &self.nodes[new_id].parents {
+            // the duplicate has no parents yet: the wide links to redirect are
+            // those that point at the original root.
+            for (parent_id, len) in &self.nodes[root].parents {
                 if !matches!(len, OffsetLen::Offset16) {
                     for link in &mut self.objects.get_mut(parent_id).unwrap().offsets {
-                        if link.object == *root {
+                        if link.object == *root && !matches!(link.len, OffsetLen::Offset16) {
                             link.object = *new_id;
                         }
                     }
